@@ -43,6 +43,7 @@ type c20Step struct {
 	Data string `json:"data"` // hex payload (valid, corrupt, trunc)
 	Bit  int    `json:"bit"`  // corrupt: bit to flip (mod stream length)
 	Cut  int    `json:"cut"`  // trunc: bytes kept (mod stream length)
+	Wrap bool   `json:"wrap,omitempty"` // hand Reset a plain io.Reader instead of a *bytes.Buffer
 }
 type c20HistIn struct {
 	Enc   int32     `json:"enc"`
@@ -202,6 +203,9 @@ func c20Hist(in c20HistIn) c20HistOut {
 			so.Fresh = &look
 			// one message through the pooled instance, as connect-go's compressionPool does
 			var rd io.Reader = bytes.NewBuffer(append([]byte{}, src...))
+			if st.Wrap {
+				rd = struct{ io.Reader }{rd}
+			}
 			r := c20Call(func() error { return d.Reset(rd) })
 			so.Subs = append(so.Subs, r)
 			if r == "ok" {
@@ -408,6 +412,36 @@ func runC20(c *gen.Ctx) error {
 		jobs = append(jobs, c20HistIn{Enc: enc, Via: via, Steps: steps})
 	}
 	c.DoParallel("hist", jobs, 8)
+
+	// (c') large messages (beyond the libraries' synchronous small-input paths and internal block
+	//      sizes: 150-400 KiB incompressible, 1 MiB compressible) on closed-and-reused instances,
+	//      and sources that are plain io.Readers rather than *bytes.Buffer
+	jobs = nil
+	big := func(n int, compressible bool) string {
+		b := make([]byte, n)
+		if compressible {
+			for i := range b {
+				b[i] = byte((i / 97) % 251)
+			}
+		} else {
+			copy(b, r.Bytes(n))
+		}
+		return gen.Hex(b)
+	}
+	for _, enc := range encs {
+		l1, l2 := big(r.Range(150000, 400000), false), big(r.Range(140000, 300000), false)
+		small := gen.Hex(c20Payload(r, 300))
+		jobs = append(jobs,
+			c20HistIn{Enc: enc, Steps: []c20Step{{K: "valid", Data: l1}, {K: "valid", Data: small}, {K: "valid", Data: l2}, {K: "valid", Data: ""}}},
+			c20HistIn{Enc: enc, Steps: []c20Step{{K: "valid", Data: small}, {K: "close"}, {K: "valid", Data: l2}, {K: "trunc", Data: l1, Cut: 70000}, {K: "valid", Data: l1}}},
+			c20HistIn{Enc: enc, Steps: []c20Step{{K: "valid", Data: small, Wrap: true}, {K: "close"}, {K: "valid", Data: small, Wrap: true}, {K: "corrupt", Data: small, Bit: 77, Wrap: true}, {K: "valid", Data: l1, Wrap: true}}},
+		)
+		if th {
+			jobs = append(jobs, c20HistIn{Enc: enc, Steps: []c20Step{{K: "valid", Data: big(1<<20, true)}, {K: "close"}, {K: "valid", Data: big(1<<20, true)}, {K: "valid", Data: big(600000, false), Wrap: true}}})
+		}
+	}
+	e.Add("histories-large-messages", len(jobs))
+	c.DoParallel("hist", jobs, 6)
 
 	// (d) pooled compressors
 	jobs = nil
